@@ -1,6 +1,7 @@
 """Thorough-tier self-test: re-run a property's rules on scratch copies of /repo's current tree with
  (a) each committed seeded change that this property is recorded to catch  -> must fire,
- (b) each committed neutral refactoring                                     -> must stay silent.
+ (b) each committed neutral refactoring                                     -> must stay silent,
+ (c) each whole-package behaviour-preserving transformation of sa/mutate.py -> must stay silent.
 The result is recorded in the evidence (it does not gate the exit code: on a tree that already violates the
 property every variant fires).  Scratch copies live under a fresh mkdtemp outside /repo and /verif and are removed."""
 
@@ -48,10 +49,36 @@ def _one(args):
         shutil.rmtree(base, ignore_errors=True)
 
 
+def _mutated(args):
+    pid, repo, kind = args
+    from .mutate import transform
+
+    base = tempfile.mkdtemp(prefix="vself.")
+    try:
+        shutil.copytree(os.path.join(repo, "einx"), os.path.join(base, "einx"), ignore=shutil.ignore_patterns("__pycache__"))
+        for root, _, files in os.walk(os.path.join(base, "einx")):
+            for fn in files:
+                if fn.endswith(".py"):
+                    path = os.path.join(root, fn)
+                    src = open(path, encoding="utf-8").read()
+                    try:
+                        new = transform(kind, src, path)
+                    except Exception:
+                        continue  # the file stays as it is
+                    if new != src:
+                        open(path, "w", encoding="utf-8").write(new)
+        res, detail = _run(pid, base)
+        return "mutation", kind, res, detail
+    finally:
+        shutil.rmtree(base, ignore_errors=True)
+
+
 def selftest(pid, repo):
     from concurrent.futures import ProcessPoolExecutor
 
-    out = {"breaking": [], "neutral": [], "fired": 0, "missed": 0, "silent_ok": 0, "false_alarms": 0, "not_applicable": 0}
+    from .mutate import KINDS
+
+    out = {"breaking": [], "neutral": [], "mutations": [], "fired": 0, "missed": 0, "silent_ok": 0, "false_alarms": 0, "not_applicable": 0, "mutations_silent": 0, "mutations_noisy": 0}
     jobs = []
     for meta_path in sorted(glob.glob(os.path.join(VERIF, "seeded", "*", "meta.json"))):
         meta = json.load(open(meta_path))
@@ -61,6 +88,10 @@ def selftest(pid, repo):
     for patch in sorted(glob.glob(os.path.join(VERIF, "selftest", "neutral", "*.diff"))):
         jobs.append((pid, repo, "neutral", os.path.basename(patch)[:-5], patch))
     with ProcessPoolExecutor(max_workers=min(12, os.cpu_count() or 4)) as ex:
+        for _, kind, res, detail in ex.map(_mutated, [(pid, repo, k) for k in KINDS]):
+            out["mutations_silent" if res == "silent" else "mutations_noisy"] += 1
+            if res != "silent":
+                out["mutations"].append({"transformation": kind, "result": res, "detail": detail})
         for kind, name, res, detail in ex.map(_one, jobs):
             if res == "n/a":
                 out["not_applicable"] += 1
